@@ -11,7 +11,7 @@ import (
 
 func init() {
 	register("C03", propMeta{
-		Explanation:  "Decides where staged data may be written and what readers resolve through: (R1) commitUpdatedNodes stages the new node versions under the handle's freshly allocated INACTIVE physical id only (blob key and L2 key), never under the active id, reserves that id in the registry before the blob is written, and never flips the active id; (R2) nodeRepositoryBackend.get resolves a node that is not in the transaction's own caches through the registry handle and fetches the blob / L1 entry of that handle's ACTIVE id, the process-wide MRU shortcut being taken only before commit time (phaseDone == 0) and the L1 cache serving an entry only when its version equals the handle's version; (R3) the undo of a staged update removes the INACTIVE id's blob and cache entry (never the active one) and clears the reservation; (R4) the pre-images that a failed commit writes back are logged before the handles are flipped in place (shared with C08.R2); (R6) handles reach the L1/L2 caches only after the registry file write succeeded (shared with C20.R2); (R5) nothing a fresh transaction resolves without an un-flipped handle is written before the commit point: the calls reachable from phase 1 that publish such state (StoreRepository.Update of the persisted Count, Registry.Add of a first root whose id is pre-published in StoreInfo.RootNodeID) are enumerated and must be empty. (R7) uncommitted in-place changes of a node stay private: the L1 node cache stores clones and hands out copies only (shared with C38.R2/R3). (R8) in an actively persisted store an updated value is written under a fresh blob id whether or not the value was read first.",
+		Explanation:  "Decides where staged data may be written and what readers resolve through: (R1) commitUpdatedNodes stages the new node versions under the handle's freshly allocated INACTIVE physical id only (blob key and L2 key), never under the active id, reserves that id in the registry before the blob is written, and never flips the active id; (R2) nodeRepositoryBackend.get resolves a node that is not in the transaction's own caches through the registry handle and fetches the blob / L1 entry of that handle's ACTIVE id, the process-wide MRU shortcut being taken only before commit time (phaseDone == 0) and the L1 cache serving an entry only when its version equals the handle's version; (R3) the undo of a staged update removes the INACTIVE id's blob and cache entry (never the active one) and clears the reservation; (R4) the pre-images that a failed commit writes back are logged before the handles are flipped in place (shared with C08.R2); (R6) handles reach the L1/L2 caches only after the registry file write succeeded (shared with C20.R2); (R5) nothing a fresh transaction resolves without an un-flipped handle is written before the commit point: the calls reachable from phase 1 that publish such state (StoreRepository.Update of the persisted Count, Registry.Add of a first root whose id is pre-published in StoreInfo.RootNodeID) are enumerated and must be empty. (R7) uncommitted in-place changes of a node stay private: the L1 node cache stores clones and hands out copies only (shared with C38.R2/R3). (R8) in an actively persisted store an updated value is written under a fresh blob id whether or not the value was read first. (R9) the count delta a writer applied in phase 1 is reversed on the right stores when it aborts: getRollbackStoresInfo returns one element per backend in backend order, because Transaction.rollback indexes the created flags with the list position (shared with C06.R5).",
 		DoesNotCover: "Schedules are not explored; what readers see of item VALUE blobs written in phase 1 (they are reachable only through nodes, hence through R1/R2) and TTL-based freshness of the handle cache across processes (C20) are not decided.",
 	}, runC03)
 }
@@ -158,6 +158,8 @@ func runC03(c *Ctx) {
 
 	r8 := c.Rule("R8", "an actively persisted store writes an updated value before the commit point, so it must never write it under the committed blob's id: in itemActionTracker.manage(updateAction) the re-keying of the item (item.ID = NewUUID) is reached for actively persisted stores whether or not ValueNeedsFetch is still set - reading the value first clears that flag", 2)
 	activePersistRekeyRule(c, r8)
+	r9 := c.Rule("R9", "the item count a writer applied before it aborted is taken back from the right stores: positional pairing of getRollbackStoresInfo with btreesBackend in Transaction.rollback (shared with C06.R5)", 3)
+	positionalPairingRule(c, r9)
 	r7 := c.Rule("R7", "uncommitted in-place changes of a node stay private: the host-wide L1 node cache stores clones of what it is given and hands out materialised copies only, so a transaction never works on the object the cache holds (shared with C38.R2/R3)", 3)
 	l1IsolationRules(c, r7, r7)
 	r6 := c.Rule("R6", "a handle becomes visible through the caches only after it is in the registry file: the file-system registry's Add / UpdateNoLocks refresh L1 and L2 only after the disk write succeeded (shared with C20.R2) - otherwise readers resolve the flipped handle of a commit whose registry write then fails", 4)
